@@ -82,6 +82,10 @@ pub fn gen_base(rng: &mut Rng, cfg: &BaseCfg) -> (J, StdTable, Sel, Shape) {
     // order-insensitive aggregates over integers that are distinct but equal as doubles (few lines: sums stay inside 64 bits)
     let big_ints = cfg.order_insensitive_only && n <= 40 && rng.chance(1, 6);
     if big_ints { dc.big_ints = true; }
+    // integers whose squares add up beyond 2^53: STDDEV / VARIANCE / AVG / SUM over INT are exact integer sums until the very
+    // last step, so every order of the lines gives the same bits
+    let mid_ints = cfg.order_insensitive_only && !big_ints && n <= 40 && rng.chance(1, 8);
+    if mid_ints { dc.mid_ints = true; }
     if rng.chance(1, 12) { dc.zeros = true; }
     let mut lines = std_lines(rng, &t, n, &dc);
     // empty lines, blanks and foreign text between the records (rows only where a DEFAULT makes them rows)
@@ -95,6 +99,10 @@ pub fn gen_base(rng: &mut Rng, cfg: &BaseCfg) -> (J, StdTable, Sel, Shape) {
             let mut s = gen_aggregate(rng, &t.schema, &acfg);
             // floating-point sums of squares of 2^53-sized numbers depend on the order of addition by more than any tolerance
             // (and 2^62-sized sums overflow in some orders only): not part of the big-integer cases
+            if mid_ints {
+                s = Sel { from: "t".into(), group_by: Some(vec![col("k")]), ..Default::default() };
+                s.projs = vec![(col("k"), None), (E::Agg("stddev".into(), false, vec![col("i")]), None), (E::Agg("variance".into(), false, vec![col("i")]), Some("v".into())), (E::Agg("avg".into(), false, vec![col("i")]), None), (E::Agg("sum".into(), false, vec![col("i")]), None), (E::Agg("count".into(), false, vec![E::Star]), None)];
+            }
             if big_ints {
                 let risky = |s: &Sel| { let txt = s.text(Paren::Full); txt.contains("stddev") || txt.contains("variance") || txt.contains("sum") || txt.contains("avg") || txt.contains(" * ") || txt.contains(" + ") || txt.contains(" - ") || txt.contains("pow") };
                 for _ in 0..20 { if !risky(&s) { break; } s = gen_aggregate(rng, &t.schema, &acfg); }
@@ -127,6 +135,6 @@ pub fn gen_base(rng: &mut Rng, cfg: &BaseCfg) -> (J, StdTable, Sel, Shape) {
         }
     }
     let mut u = t.spec.clone(); u.name = "u".into();
-    let case = json!({"tables": format!("{} {}", t.spec.text(), u.text()), "stmt": sel.text(Paren::Full), "lines": lines, "joined": joined, "shape": format!("{:?}", shape), "big_ints": big_ints});
+    let case = json!({"tables": format!("{} {}", t.spec.text(), u.text()), "stmt": sel.text(Paren::Full), "lines": lines, "joined": joined, "shape": format!("{:?}", shape), "big_ints": big_ints, "exact_ints": mid_ints});
     (case, t, sel, shape)
 }
